@@ -1,5 +1,6 @@
 import DeriveExModel.Gen
 import DeriveExModel.L2
+import DeriveExModel.Shrink
 open DX
 
 def printCase (c : Case) : IO Unit := do
@@ -135,6 +136,23 @@ def main (args : List String) : IO UInt32 := do
     out.putStrLn (s!"SRC c0 {rustItem c}".replace "\n" " ")
     out.putStrLn "END"
     pure 0
+  | [mode, fam, seed, idx, path] =>
+    if mode != "shrink" && mode != "shrunk" then IO.eprintln "usage"; return 2
+    -- the case reached by a path of candidate indices (`-` = the case itself), and — for `shrink` — its one-step reductions
+    let ks := if path == "-" then [] else (path.splitOn ".").map String.toNat!
+    match family fam seed.toNat! idx.toNat! with
+    | none => IO.eprintln s!"unknown family {fam}"; return 2
+    | some c0 =>
+      match c0.shrinkAt ks with
+      | none => IO.eprintln "bad path"; return 2
+      | some c =>
+        let base := s!"{fam}/{seed}/{idx}@"
+        let here := if ks.isEmpty then "" else path
+        printCase { c with id := base ++ (if ks.isEmpty then "-" else path) }
+        if mode == "shrink" then
+          for (c', k) in c.shrinks.zipIdx do
+            printCase { c' with id := base ++ (if here.isEmpty then toString k else here ++ "." ++ toString k) }
+        pure 0
   | _ =>
     IO.eprintln "usage: drv gen <family> <seed> <from> <count> | drv count <family>"
     pure 2
